@@ -6,6 +6,7 @@ import TsVerif.C17.MergeMultiLemmas
 import TsVerif.C17.MergeTerm
 import TsVerif.C17.IntersectLemmas
 import TsVerif.C17.Locals
+import TsVerif.C17.FullLemmas
 /-!
 # C17 — Highlight events are well nested and reproduce the source text exactly
 
@@ -25,6 +26,7 @@ Clause map (models: `TsVerif/C17/Model.lean`, `Merge.lean`; judges: `Judge.lean`
 | "invalid UTF-8 replaced" | `lossyFixed_eq_spec` (∀ bytes), `lossy_eq_spec_partial` (no tail loss), witnesses `lossy_drops_truncated_tail`, `lossy_drops_final_replacement` | proved / witness |
 | normalisation of the WHOLE source | `normalize_whole` (well-formed stream whose chunks do not end inside a character ⇒ decoded chunks = decoded source), `render_roundtrip_whole_fixed` | proved |
 | renderer does not panic on a well-formed stream | `render_total_of_wellFormed` | proved |
+| Source spans contiguous/increasing/covering, Start/End nested and closed (END-TO-END model: layers + locals + the injection step computed by the model, `Full.lean`) | `merge_full_wellformed` (terminates and is well formed for every layer/match table with offsets inside the source and injections creating later layers; both conditions checked on every real case; tied by exact reproduction of real streams with locals AND injections, combined, self/parent) | proved for the model, judged on every real stream |
 | Source spans contiguous/increasing/covering, Start/End nested and closed | `merge_wellformed_partial` (model of the merge of ONE layer: `highlight_end_stack`, `emit_event`, `next_event`; tied by correspondence); `merge_multi_wellformed` (several layers: `sort_key`, `sort_layers`, `insert_layer`, `last_highlight_range`; no locals branch; the run provably finishes when injections refer to later layers of the table — `refsUp`, checked on every real case), `merge_multi_wellformed_partial` (any layer table, if the run finishes); both models tied by correspondence | proved for the models, judged on every real stream |
 | injected spans inside the content | `intersect_ranges_spec`, `injected_content_inside` (port of `intersect_ranges`: every content range is non-empty, inside a range of the parent layer, inside a content node and — unless include-children — clear of the node's children); that a layer's SPANS start inside its included ranges is a property of parsing with included ranges (C13), judged on every real stream by `judgeInjected` | ranges proved, spans judged |
 | local reference like definition | `local_ref_like_def`, `findDef_newest` (port of the locals branch for one layer, `Locals.lean`, tied by correspondence on layers with a locals query): a reference whose enclosing scopes up to the defining one all inherit and do not define the name takes the highlight stored for the newest admissible definition; also judged on every real stream (`judgeLocals`) | proved for the one-layer model, judged |
@@ -303,6 +305,55 @@ example : defsIn 7 exLayers = true ∧ mergeLayers exLayers [0] 7 =
 /-- The finishing hypothesis cannot be dropped: a layer whose injection re-creates itself never ends. -/
 example : (mergeLayers [⟨0, [⟨0, 1, 7, .inj [0]⟩]⟩] [0] 1).2 = false ∧
     judgeEvents 1 (mergeLayers [⟨0, [⟨0, 1, 7, .inj [0]⟩]⟩] [0] 1).1 = false := by decide
+
+/-! ## End-to-end model: layers, locals and the model's own injection step -/
+
+/-- The end-to-end model of `HighlightIter::next` (`Full.lean`: layer ordering, per-layer scope
+stacks and local definitions/references, `injection_for_match`, `intersect_ranges`, lookup of the
+layers `HighlightIterLayer::new` returns) TERMINATES and yields a well-formed stream, for every
+context whose capture offsets lie inside the source and whose injections create only layers with a
+larger id (the driver checks both on every real case). -/
+theorem merge_full_wellformed (cx : Full.Ctx) (top : List Nat) (n : Nat)
+    (hd : Full.defsIn n cx = true) (hr : Full.refsUp cx = true) :
+    (Full.mergeFull cx top n).2 = true ∧ judgeEvents n (Full.mergeFull cx top n).1 = true :=
+  Full.mergeFull_ok cx top n hd hr
+
+/-- `injection_for_match`: a language captured from the source wins over every property; among the
+properties the first of `injection.language` / `injection.self` / `injection.parent` wins. -/
+theorem injection_language_captured (cfgLang : Nat) (parent : Option Nat) (nm : Nat) (content : Option INode)
+    (props : List Full.IProp) :
+    (Full.injectionForMatch cfgLang parent ⟨some nm, content, props⟩).1 = some nm := by
+  unfold Full.injectionForMatch
+  simp only
+  have key : ∀ (ps : List Full.IProp) (b : Bool), ((ps.foldl (fun (acc : Option Nat × Bool) p =>
+      match p with
+      | .lang n => if acc.1.isNone then (some n, acc.2) else acc
+      | .self => if acc.1.isNone then (some cfgLang, acc.2) else acc
+      | .parent => if acc.1.isNone then (parent, acc.2) else acc
+      | .inclChildren => (acc.1, true)
+      | .other => acc) (some nm, b))).1 = some nm := by
+    intro ps
+    induction ps with
+    | nil => intro b; rfl
+    | cons p r ih =>
+      intro b
+      cases p <;> simp only [List.foldl_cons, Option.isNone_some, Bool.false_eq_true, ↓reduceIte] <;> exact ih _
+  exact key props false
+
+/-- non-vacuity: a host layer with a definition, a reference and an injection by node text whose
+content (minus its one child) becomes a stmt layer found in the `new` table. -/
+def exCtx : Full.Ctx :=
+  { defs := [⟨2, 0, [(0, 18446744073709551615)],
+              [⟨0, 1, 1, .defn 7 0 true⟩, ⟨0, 1, 1, .hl (some 4) false⟩,
+               ⟨2, 3, 2, .inj ⟨some 0, some ⟨4, 9, [(6, 7)]⟩, []⟩⟩,
+               ⟨10, 11, 3, .ref 7 true⟩, ⟨10, 11, 3, .hl (some 5) true⟩]⟩,
+             ⟨0, 1, [(4, 6), (7, 9)], [⟨4, 5, 9, .hl (some 1) false⟩, ⟨7, 9, 8, .hl (some 2) false⟩]⟩],
+    news := [⟨0, 1, [(4, 6), (7, 9)], [1]⟩], nKnown := 3, rootLang := 2 }
+
+example : Full.defsIn 12 exCtx = true ∧ Full.refsUp exCtx = true ∧
+    Full.mergeFull exCtx [0] 12 =
+      ([.start 4, .source 0 1, .stop, .source 1 4, .start 1, .source 4 5, .stop, .source 5 7, .start 2,
+        .source 7 9, .stop, .source 9 10, .start 4, .source 10 11, .stop, .source 11 12], true) := by decide
 
 /-! ## Injection content ranges -/
 
